@@ -597,6 +597,10 @@ func samePTN(a, b *ptn.PTN) bool {
 // emitQueries asks for the start position, the iterator trace and PositionAtMove over (n, colour).
 func emitQueries(c *Ctx, hx string, p *ptn.PTN, maxNum int) {
 	tr := tpsRes(p)
+	if tps := p.FindTag("TPS"); tps != "" {
+		// the model of these ops is handed ParseTPS's own answer for the tag: tie that answer to the TPS model here
+		c.Emit("parsetps " + hexEnc([]byte(tps)))
+	}
 	c.Emit("ptninit " + hx + " " + tr)
 	c.Emit("ptniter " + hx + " " + tr)
 	// the markers that occur in the file (whatever their size), their neighbours, and 0 / 1 / 2
@@ -851,7 +855,94 @@ func emitReuse(c *Ctx) {
 	c.Count("reuse." + kind)
 }
 
+// emitLateTPSGame: a game given as a [TPS] start late in a 7x7/8x8 game - one side has all but one or two of its pieces
+// (stones AND capstones) on the board, in stacks - plus the last plies
+func emitLateTPSGame(c *Ctx) {
+	r := c.R
+	size := 7 + r.Intn(2)
+	stones := map[int]int{7: 40, 8: 50}[size]
+	who := bothColors[r.Intn(2)]
+	other := who.Flip()
+	board := emptyBoard(size)
+	left := stones - r.Intn(3) // stones of `who` to put on the board
+	caps := 2 - r.Intn(2)
+	x, y := 0, 0
+	next := func() (int, int) {
+		cx, cy := x, y
+		x += 2
+		if x >= size {
+			x = (y + 1) % 2
+			y++
+		}
+		return cx, cy
+	}
+	for left > 0 && y < size-1 {
+		h := 3 + r.Intn(5)
+		if h > left {
+			h = left
+		}
+		top := tak.MakePiece(who, tak.Flat)
+		if caps > 0 && r.Chance(1, 3) {
+			top = tak.MakePiece(who, tak.Capstone)
+			caps--
+			h++ // the capstone is not a stone
+		}
+		sq := make(tak.Square, h)
+		sq[0] = top
+		for j := 1; j < h; j++ {
+			sq[j] = tak.MakePiece(who, tak.Flat)
+		}
+		left -= h
+		if top.Kind() == tak.Capstone {
+			left++
+		}
+		cx, cy := next()
+		board[cy][cx] = sq
+	}
+	// a few stones of the other side on the top row
+	for i := 0; i < size; i += 3 {
+		board[size-1][i] = tak.Square{tak.MakePiece(other, tak.Flat)}
+	}
+	ply := 60 + 2*r.Intn(10)
+	if who == tak.White { // the side with the full board has just moved
+		ply++
+	}
+	p, err := tak.FromSquares(tak.Config{Size: size}, board, ply)
+	if err != nil {
+		c.Count("late-tps.build-failed")
+		return
+	}
+	g := &ptn.PTN{Tags: []ptn.Tag{{Name: "Size", Value: strconv.Itoa(size)}, {Name: "TPS", Value: ptn.FormatTPS(p)}}}
+	cur := p
+	for i := 0; i < 1+r.Intn(3); i++ {
+		if o, _ := cur.GameOver(); o {
+			break
+		}
+		ms := legalMoves(cur)
+		if len(ms) == 0 {
+			break
+		}
+		m := ms[r.Intn(len(ms))]
+		nx, err := cur.Move(m)
+		if err != nil {
+			break
+		}
+		g.Ops = append(g.Ops, &ptn.Move{Move: m})
+		cur = nx
+	}
+	text := []byte(g.Render())
+	hx := hexEnc(text)
+	c.Emit("ptnparse " + hx)
+	if q, err := ptn.ParsePTN(bytes.NewReader(text)); err == nil {
+		emitQueries(c, hx, q, 0)
+	}
+	c.Count("late-tps." + colorStr(who) + "-nearly-out")
+}
+
 func genC12(c *Ctx) {
+	for k := c.Scale(32, 1600); k > 0; k-- {
+		emitLateTPSGame(c)
+	}
 	emitBoundary(c) // every clause of the render/parse safety predicate, from both sides (gen_ptn_bound.go)
 	n := c.Scale(2000, 100000) // thorough: 200k plain games took 37 min wall on a loaded 16-core box; 100k with the puzzle games stays under 30
 	for k := 0; k < n; k++ {
